@@ -191,8 +191,8 @@ Definition exec_assign (G : decls) (st : state) (lbl : nat) (l : lhs) (e : expr)
       | None => Err EOther
       | Some f =>
           bind (rhs st) (fun vs =>
-          (* <<= is modelled for whole vector signals only *)
-          if negb blocking && negb (match p, fstruct f with [], None => true | _, _ => false end) then Err EOther else
+          (* <<= is modelled for whole signals (vector or bitstruct) only *)
+          if negb blocking && negb (match p with [] => true | _ => false end) then Err EOther else
           bind (spec_store (fw f) (to_operand (fst vs))) (fun u =>
           Ok (write_root (snd vs) blocking s (splice (sigv st s) (flo f) (flo f + fw f) u))))
       end
